@@ -18,14 +18,23 @@ def parseTask (i : Nat) (t : String) : List TStep :=
   else if t.startsWith "Y" then List.replicate rest .susp ++ [.ret i]
   else [.ret i]
 
-/-- turn; record who finished at this clock value; advance -/
-def simulate : Nat → Pool → Nat → Nat → List (Nat × Nat) → Nat → List (Nat × Nat) × Pool
-  | 0, p, _, _, acc, _ => (acc, p)
-  | f + 1, p, t0, step, acc, n =>
+/-- the tasks whose submission time has come and that are not submitted yet: (task index, program, at) -/
+def submitDue (p : Pool) (t0 : Nat) (pending : List (Nat × List TStep × Nat)) : Pool × List (Nat × List TStep × Nat) :=
+  pending.foldl (fun (acc : Pool × List (Nat × List TStep × Nat)) e =>
+    if e.2.2 * ms + t0 ≤ acc.1.now then ((submit acc.1 e.2.1 0).1, acc.2) else (acc.1, acc.2 ++ [e])) (p, [])
+
+/-- submit what is due; turn; record who finished at this clock value; advance -/
+def simulate : Nat → Pool → Nat → Nat → List (Nat × Nat) → Nat → List (Nat × List TStep × Nat) → List (Nat × Nat) × Pool
+  | 0, p, _, _, acc, _, _ => (acc, p)
+  | f + 1, p, t0, step, acc, n, pending =>
+    let sd := submitDue p t0 pending
+    let p := sd.1
     let p1 := (pass p).getD p
-    let newly := (p1.results.filter (fun e => !(acc.any (·.1 == e.1)))).map (fun e => (e.1, (p1.now - t0) / ms))
+    -- a task is identified by the value it returns (its index in the case), not by its submission order
+    let newly := (p1.results.filterMap (fun e => match e.2 with | .ok v => some v | _ => none)).filter (fun v => !(acc.any (·.1 == v)))
+      |>.map (fun v => (v, (p1.now - t0) / ms))
     let acc := acc ++ newly
-    if acc.length ≥ n then (acc, p1) else simulate f { p1 with now := p1.now + step * ms } t0 step acc n
+    if acc.length ≥ n then (acc, p1) else simulate f { p1 with now := p1.now + step * ms } t0 step acc n sd.2
 
 def drive (body impl : String) : Verdict :=
   let (cfg, tasksS) := match body.splitOn " ; " with
@@ -33,11 +42,14 @@ def drive (body impl : String) : Verdict :=
     | _ => ("1 1", "")
   let mx := ((words cfg).getD 0 "1").toNat?.getD 1
   let step := ((words cfg).getD 1 "1").toNat?.getD 1
-  let tasks := words tasksS
+  let tasksAt : List (String × Nat) := (words tasksS).map (fun w => match w.splitOn "@" with
+    | [a, b] => (a, b.toNat?.getD 0)
+    | _ => (w, 0))
+  let tasks := tasksAt.map (·.1)
   let t0 := 1000000000
   let p0 : Pool := { maxSize := mx, now := t0 }
-  let p := (tasks.zipIdx).foldl (fun p (t, i) => (submit p (parseTask i t) 0).1) p0
-  let (fin, pe) := simulate 400 p t0 step [] tasks.length
+  let pending := (tasksAt.zipIdx).map (fun ((t, tat), i) => (i, parseTask i t, tat))
+  let (fin, pe) := simulate 400 p0 t0 step [] tasks.length pending
   let showFin := fun (l : List (Nat × Nat)) => joinWith "," ((List.range tasks.length).map (fun i =>
     match l.find? (·.1 == i) with | some e => s!"{i}:{e.2}" | none => s!"{i}:-"))
   let mo := s!"fin={showFin fin} run={pe.running}"
@@ -51,16 +63,17 @@ def drive (body impl : String) : Verdict :=
   let fails : List String :=
     (if abn then [s!"[hang-or-abort] {impl}"] else []) ++
     (if tasks.length ≤ mx then
-      (tasks.zipIdx).filterMap (fun (t, i) =>
+      (tasksAt.zipIdx).filterMap (fun ((t, tat), i) =>
         if t.startsWith "Z" then
           let d := (t.drop 1).toString.toNat?.getD 0
           match (ifin.find? (·.1 == i)).bind (·.2) with
-          | some f => if f > d + step then some s!"[stalled-behind-a-sleeper] task {i} sleeps {d} ms and had a worker of its own, but finished only at {f} ms" else none
+          | some f => if f > tat + d + step then some s!"[stalled-behind-a-sleeper] task {i} was submitted at {tat} ms, sleeps {d} ms and had a worker of its own, but finished only at {f} ms" else none
           | none => some s!"[never-finished] task {i} (sleep {d} ms) never finished"
         else none)
      else [])
   { modelOut := mo, spec := [("C15", fails.isEmpty, joinWith " ; " fails)],
     labels := [if tasks.length ≤ mx then "room-for-all" else "rounds"] ++
+              (if tasksAt.any (·.2 > 0) then ["late-arrivals"] else []) ++
               (if tasks.any (·.startsWith "Y") then ["with-computing-tasks"] else []) ++
               (if tasks.any (fun t => t.startsWith "Z" && ((t.drop 1).toString.toNat?.getD 0) > 10) then ["multi-slice"] else ["single-slice"]) }
 end Oc.Driver.Sleepers
